@@ -35,7 +35,7 @@ MIN_PAD = 5  # 1 (text header) + 3 ("pad") + 1 (empty byte string)
 
 def caps(tier):
     # loop: iterations of the guess/push loops; dh: (initial pad + bytes to add) for DataHash (one push per byte)
-    return dict(loop=12, dh=40, extra=2 ** 17, starts=(0, 20)) if tier == "quick" else dict(loop=16, dh=80, extra=2 ** 24, starts=(0, 10, 23, 200, 250))
+    return dict(loop=12, dh=40, extra=2 ** 17, starts=(0, 20)) if tier == "quick" else dict(loop=16, dh=80, extra=2 ** 24, starts=(0, 10, 23, 200))
 
 
 # ---- length-only byte vectors ---------------------------------------------------------------------
